@@ -580,7 +580,7 @@ def stage1(rep, quick):
     # (a) the repaired design satisfies every clause
     plans = [("design", dict(outcomes="OutcomesTiny"), INVARIANTS)]
     if not quick:
-        plans = [("design/full-counters", dict(dt="TFull", dcr="CRFull", dso="SOFull", maxlen=4), INVARIANTS),
+        plans = [("design/full-counters", dict(dt="TFull", dcr="CRFull", dso="SOFull", maxlen=5), INVARIANTS),
                  ("design/flags+routes", dict(dflag="BOOLEAN", routes="RBoth"), INVARIANTS)]
     for name, kw, checks in plans:
         r = tlc.run("MC_Retry", mc_cfg(checks, **kw), workers="auto", heap="3g", timeout=7200, expect_fail=True, **dummy)
@@ -647,7 +647,7 @@ def nontrivial_key(tr):
     return json.dumps([c["id"], tr["seq"]])
 
 
-def judge(traces, verdicts, expect=None):
+def judge(traces, verdicts):
     """Turn TLC's verdicts into results: list of dicts (kind violation|known|drift|problem)."""
     out = []
     for tr, (tid, pos, clause, eof, mv, mpos) in zip(traces, verdicts):
@@ -844,7 +844,7 @@ def run(rep):
     with mp.Pool(J) as pool:
         for pcfgs, maxlen, outs, defects in plans:
             order = sorted(pcfgs, key=lambda c: (c["id"] * 2654435761) % 1000003)
-            k = max(1, min(len(order), J * 3))
+            k = max(1, min(len(order), J * 2))
             shards = [order[i::k] for i in range(k)]
             outsr = pool.map(_emit_shard, [(s, maxlen, outs, defects, 4000) for s in shards], chunksize=1)
             for o in outsr:
